@@ -290,6 +290,8 @@ def phi(c, a, b):
             b = F.fn("tuple", *[need(x) for x in b]) if isinstance(b, tuple) else b
         except Unsupported:
             return Unknown("tuple in one arm of an `if` only")
+    if not is_unknown(c) and not isinstance(c, tuple) and c.is_const():
+        return a if c.const_value() != 0 else b
     if is_unknown(a) or is_unknown(b):
         return a if is_unknown(a) else b
     if is_unknown(c):
@@ -673,6 +675,15 @@ class CEval(AutoEvaluator):
             if isinstance(cv, tuple):
                 cv = Unknown("test on a tuple")
             return phi(cv, a, b)
+        if isinstance(node, ast.Subscript):
+            v = super()._ev(node)
+            if not is_unknown(v) and not isinstance(v, tuple):
+                p = fn_parts(v)
+                if p is not None and p[0] == "idx" and not isinstance(p[1][0], str) and not isinstance(p[1][1], str) and p[1][1].is_const():
+                    q = fn_parts(p[1][0])
+                    if q is not None and q[0] == "dec":
+                        self.walker.events.append(("decidx", p[1][0], int(p[1][1].const_value()), node))
+            return v
         if isinstance(node, ast.NamedExpr):
             v = self._ev(node.value)
             self.walker.assign(node.target, v, node)
@@ -900,6 +911,9 @@ class Walker:
     def assign(self, target, v, st):
         ev = self.ev
         if isinstance(target, (ast.Tuple, ast.List)) and not isinstance(v, tuple) and not is_unknown(v) and v is not None:
+            p = fn_parts(v)
+            if p is not None and p[0] == "dec" and not any(isinstance(t, ast.Starred) for t in target.elts):
+                self.events.append(("decunpack", v, len(target.elts), st))
             for i, t in enumerate(target.elts):
                 if isinstance(t, ast.Starred):
                     self.assign(t.value, Unknown("starred target"), st)
